@@ -27,7 +27,8 @@ structure Cluster where
   flight : Nat → Option Flight
   -- ghost
   leaders : List (Nat × Nat × List Nat)   -- (node, term, the voters whose grants it counted, itself first)
-  grants : List (Nat × Nat × Nat)         -- (voter, candidate, term): a `vote_granted = true` reply was produced
+  grants : List (Nat × Nat × Nat)         -- (voter, candidate, term): a `vote_granted = true` reply was produced,
+                                          -- or the candidate voted for itself (`vote_myself`)
   fv : Nat → Nat → Option Nat             -- first candidate a node voted for in a term (incl. itself)
 deriving Inhabited
 
@@ -95,7 +96,8 @@ def step (c : Cluster) : Label → Cluster
     if c.ready cand ∧ (c.proc cand).node.role = .candidate then
       let n' := startElection (c.proc cand).node
       let c1 := c.setNode cand n'
-      { c1 with flight := upd c1.flight cand (some ⟨[]⟩), fv := recordVote c1.fv cand n'.term cand }
+      { c1 with flight := upd c1.flight cand (some ⟨[]⟩), grants := (cand, cand, n'.term) :: c1.grants,
+                fv := recordVote c1.fv cand n'.term cand }
     else c
   | .deliver cand j =>
     match c.flight cand with
